@@ -26,8 +26,8 @@ VERIF = os.path.dirname(os.path.abspath(__file__))
 REPO = os.environ.get("VERIF_REPO", "/repo")
 HARNESS = os.path.join(VERIF, "harness")
 BUILD_ROOT = os.path.join(VERIF, ".build")
-EVIDENCE = os.path.join(VERIF, "evidence")
-REPLAYS = os.path.join(VERIF, "replays")
+EVIDENCE = os.environ.get("VERIF_EVIDENCE_DIR", os.path.join(VERIF, "evidence"))
+REPLAYS = os.environ.get("VERIF_REPLAY_DIR", os.path.join(VERIF, "replays"))
 KNOWN = os.path.join(VERIF, "KNOWN_FINDINGS.txt")
 NCPU = max(1, min(16, os.cpu_count() or 1))
 
@@ -56,9 +56,10 @@ TARGETS = {
 }
 
 
-def tree_hash():
+def tree_hash(repo=None):
+    repo = repo or REPO
     h = hashlib.sha256()
-    for root in (os.path.join(REPO, "inc"), os.path.join(REPO, "src"), HARNESS):
+    for root in (os.path.join(repo, "inc"), os.path.join(repo, "src"), HARNESS):
         for dp, dn, fn in sorted(os.walk(root)):
             dn.sort()
             for f in sorted(fn):
@@ -126,7 +127,10 @@ def prune_builds(keep_hash):
     try:
         ds = [d for d in os.listdir(BUILD_ROOT) if os.path.isdir(os.path.join(BUILD_ROOT, d))]
         ds.sort(key=lambda d: os.path.getmtime(os.path.join(BUILD_ROOT, d)), reverse=True)
-        keep = [keep_hash] + [d for d in ds if d != keep_hash][:1]
+        keep = [keep_hash]
+        if REPO != "/repo" and os.path.isdir("/repo/inc"):
+            keep.append(tree_hash("/repo"))  # never evict the real tree's build while testing scratch copies
+        keep += [d for d in ds if d not in keep and d != "work"][:1] + ["work"]
         for d in ds:
             if d not in keep:
                 shutil.rmtree(os.path.join(BUILD_ROOT, d), ignore_errors=True)
